@@ -3,6 +3,7 @@
 from __future__ import annotations
 
 import ast
+import copy
 import re
 import struct
 from typing import Any, Dict, List, Optional, Tuple
@@ -69,12 +70,48 @@ def container_rule(repo: Repo, rep, P: str):
     env: Dict[str, ast.expr] = {}
     writes: List[ast.expr] = []
     todo = list(stmts_of(fn))
+    unmodelled = False
+
+    def _pad_tables(e: ast.expr) -> ast.expr:
+        """`_PADDING[k]` with `_PADDING` a module-level table whose k-th entry is k spaces reads as `b" " * k`."""
+        class PT(ast.NodeTransformer):
+            def visit_Subscript(self, node):
+                node = self.generic_visit(node)
+                if isinstance(node.value, ast.Name) and not isinstance(node.slice, ast.Slice):
+                    try:
+                        d = inline.definition_of(repo, None, sf, node.value)
+                    except Exception:
+                        d = None
+                    fill = None
+                    if isinstance(d, (ast.Tuple, ast.List)) and d.elts and all(isinstance(x, ast.Constant) and isinstance(x.value, bytes) for x in d.elts):
+                        fills = {x.value[:1] for x in d.elts if x.value}
+                        if len(fills) == 1 and all(x.value == next(iter(fills)) * i for i, x in enumerate(d.elts)):
+                            fill = next(iter(fills))
+                    elif isinstance(d, ast.Call) and norm(d.func) in ("tuple", "list") and len(d.args) == 1 and isinstance(d.args[0], (ast.GeneratorExp, ast.ListComp)) \
+                            and len(d.args[0].generators) == 1 and not d.args[0].generators[0].ifs:
+                        g = d.args[0].generators[0]
+                        el = d.args[0].elt
+                        if isinstance(g.target, ast.Name) and isinstance(g.iter, ast.Call) and norm(g.iter.func) == "range" and len(g.iter.args) == 1 \
+                                and isinstance(el, ast.BinOp) and isinstance(el.op, ast.Mult):
+                            for c_, v_ in ((el.left, el.right), (el.right, el.left)):
+                                if isinstance(c_, ast.Constant) and isinstance(c_.value, bytes) and len(c_.value) == 1 and isinstance(v_, ast.Name) and v_.id == g.target.id:
+                                    fill = c_.value
+                    if fill is not None:
+                        return ast.copy_location(ast.BinOp(left=ast.Constant(value=fill), op=ast.Mult(), right=node.slice), node)
+                return node
+        out_ = PT().visit(copy.deepcopy(e))
+        ast.fix_missing_locations(out_)
+        return out_
     while todo:
         st = todo.pop(0)
         if isinstance(st, ast.Assign) and len(st.targets) == 1 and isinstance(st.targets[0], ast.Name):
-            env[st.targets[0].id] = codec.subst(st.value, env)
+            env[st.targets[0].id] = codec.subst(_pad_tables(st.value), env)
+        elif isinstance(st, ast.AugAssign) and isinstance(st.target, ast.Name) and isinstance(st.op, ast.Add):
+            cur_ = env.get(st.target.id, ast.Name(id=st.target.id, ctx=ast.Load()))
+            env[st.target.id] = ast.BinOp(left=copy.deepcopy(cur_), op=ast.Add(), right=codec.subst(_pad_tables(st.value), env))
+            ast.fix_missing_locations(env[st.target.id])
         elif isinstance(st, ast.Expr) and isinstance(st.value, ast.Call) and norm(st.value.func) == f"{f}.write":
-            writes.append(codec.subst(st.value.args[0], env))
+            writes.append(codec.subst(_pad_tables(st.value.args[0]), env))
         elif isinstance(st, ast.If) and norm(st.test) == f"{name} is None" and all(isinstance(s, ast.Return) for s in st.body):
             continue
         elif isinstance(st, ast.If) and not st.orelse and guards.facts(st.test, True) == {f"{name} is not None"}:
@@ -83,7 +120,10 @@ def container_rule(repo: Repo, rep, P: str):
             continue
         else:
             rep.inconclusive(f"{P}.R1", construct, norm(st)[:80], "unmodelled statement in write_chunk", f"{sf.rel}:{st.lineno}")
+            unmodelled = True
     where = f"{sf.rel}:{fn.lineno}"
+    if unmodelled:
+        return              # what is written is not known: no verdict on it
     if len(writes) != 3:
         rep.violation(f"{P}.R1", construct, "; ".join(norm(w) for w in writes),
                       f"a chunk must be written as exactly id, length, payload ({len(writes)} writes found)", where)
